@@ -60,7 +60,9 @@ Definition allow_list : list allowed := [
   A "logql/logql_transpiler_v2/shared/planner_clickhouse_getter.go" "(*ClickhouseGetterPlanner).Process" 1 BScan 0 8 3 0 0;
   A "service/queryLabelsService.go" "(*QueryLabelsService).GenericLabelReq" 0 BRowsForward 0 0 0 0 0;
   A "service/queryLabelsService.go" "(*QueryLabelsService).Series" 0 BCloseOnly 0 0 0 0 0;
-  A "service/queryLabelsService.go" "(*QueryLabelsService).Series" 1 BRowsForward 0 0 0 0 0;
+  (* since d82d164 the body calls storedLabels: rest[0] behind len(rest) > 0, kv[j] / kv[0] / kv[1] on a [2]string, a map write,
+     rest[len(q):] with q a prefix of rest; a row whose label document does not decode is skipped (no send: an identity step) *)
+  A "service/queryLabelsService.go" "(*QueryLabelsService).Series" 1 BRowsForward 0 5 1 0 0;
   A "service/queryRangeService.go" "drain" 0 BDrainer 0 0 0 0 0;
   A "service/queryRangeService.go" "(*QueryRangeService).QueryRange" 0 BEncoder 0 0 0 0 0;
   (* float division e.TimestampNS/1e9 *)
